@@ -1260,6 +1260,11 @@ class Converter:
         vars_def_in_loop = self.analyzer.assigned_vars(loop_stmt.body)
         live_out = self.analyzer.live_out(loop_stmt)
         assert live_out is not None, "live_out cannot be None here."
+        if isinstance(loop_stmt, ast.For) and python_loop_var_name in live_out:
+            self._fail(
+                loop_stmt,
+                f"Loop variable {python_loop_var_name!r} is used after the loop; this is not supported.",
+            )
         # Sorted: the order of loop-carried variables must not depend on set iteration order
         # (hash randomization), and must be the same for the body's parameters and outputs
         # and for the Loop node's inputs and outputs.
